@@ -53,7 +53,7 @@ def addLoop (st en : Int) : List Rg → List Rg
 
 /-- `add(start, end)`. -/
 def add (l : RS) (st en : Int) : RS :=
-  if st = en then l else addLoop st en l
+  if st ≥ en then l else addLoop st en l
 
 /-- Result of the `sub` loop: mutated suffix, removefrom, removeto, and whether the
 loop `return`ed from the split case (which skips the final `removeranges`). -/
@@ -84,9 +84,9 @@ def subLoop (st en : Int) : List Rg → Nat → Option Nat → Nat → SubRes
     else                                                             -- remove the middle; return
       ⟨⟨r.s, st⟩ :: ⟨en, r.e⟩ :: rest, rf, rt, true⟩
 
-/-- `sub(start, end)` (with the `if start == end { return }` guard of the repaired code). -/
+/-- `sub(start, end)` (with the `if start >= end { return }` guard of the repaired code). -/
 def sub (l : RS) (st en : Int) : RS :=
-  if st = en then l else
+  if st ≥ en then l else
   let q := subLoop st en l 0 none 0
   if q.early then q.l
   else match q.rf with
